@@ -436,7 +436,8 @@ def gen_nested_case(r):
     elif m < 0.85:
         tag = "unknown-keyword"
         i = r.randrange(len(lines) + 1)
-        lines.insert(i, rws(r, 4, True) + r.choice([b"fooBar 1", b"widthh 0.5", b"x", b"atomNumbers_ 1 2"]))
+        lines.insert(i, rws(r, 4, True) + r.choice([b"fooBar 1", b"widthh 0.5", b"x", b"atomNumbers_ 1 2",
+                                                    b"fooBlock {\n  width 1\n}", b"fooBlock { width 1 }", b"group9 {\n  atomNumbers 1\n  fooBar 2\n}"]))
     elif m < 0.93:
         tag = "brace"
         idx = [i for i, l in enumerate(lines) if b"{" in l or b"}" in l]
